@@ -184,6 +184,7 @@ func runWorker(args []string) int {
 	budget := fs.Duration("budget", time.Hour, "")
 	digestOnly := fs.Bool("digest-only", false, "")
 	freshEvery := fs.Int("fresh-every", 0, "")
+	kSlots := fs.Int("k", 1, "") // this worker owns the run indices r with w <= r mod W < w+k
 	fs.Parse(args)
 	f := props.Registry[*prop]
 	if f == nil {
@@ -197,8 +198,12 @@ func runWorker(args []string) int {
 	const sigCap = 400000
 	start := time.Now()
 	code := 0
-	for r := *w; r < *n; r += *W {
-		if r&63 == 0 && time.Since(start) > *budget {
+	iter := 0
+	for r := 0; r < *n; r++ {
+		if s := r % *W; s < *w || s >= *w+*kSlots {
+			continue
+		}
+		if iter++; iter&63 == 0 && time.Since(start) > *budget {
 			res.BudgetHit = true
 			break
 		}
@@ -228,8 +233,8 @@ func runWorker(args []string) int {
 			continue
 		}
 		// continuous determinism self-check + samples: re-execute from the recorded tape
-		if r%97 == 0 || (r < 3*(*W) && *w == 0) {
-			again := execTape(*prop, tp.Rec, r < 3*(*W) && *w == 0, env)
+		if r%97 == 0 || (r < 3*(*kSlots) && *w == 0) {
+			again := execTape(*prop, tp.Rec, r < 3*(*kSlots) && *w == 0, env)
 			res.SelfChecks++
 			if again.Ctx.L.OpDigest != rr.Ctx.L.OpDigest || (again.V == nil) != (rr.V == nil) {
 				res.Harness = fmt.Sprintf("run %d: re-execution from its own tape diverged (operation digest %x vs %x): either the harness is not deterministic or the library carries state from one execution to the next (e.g. pooled buffers whose size the simulated reader can see)", r, rr.Ctx.L.OpDigest, again.Ctx.L.OpDigest)
@@ -248,7 +253,20 @@ func runWorker(args []string) int {
 		// life (a slab handed out once, a table filled by the first caller) or that earlier runs
 		// of this worker left behind is invisible in-process; the same tape in a new process
 		// must give the same events and the same verdict
-		if rr.V == nil && !raceEnabled && *freshEvery > 0 && r%*freshEvery == 0 {
+		if rr.V == nil && raceEnabled && *freshEvery > 0 && core.Mix(0xf5e5, uint64(r))%uint64(3**freshEvery) == 0 {
+			// the same, under the race detector: a write that happens once per process (a table
+			// filled or a default adjusted by the first caller) races only in a young process
+			code, out, _ := execTapeProc(os.Args[0], *prop, *tier, tp.Rec, true)
+			res.Counters["probe_whole_run_in_fresh_race_process"]++
+			if code == 66 {
+				if _, lib := raceSummary(out); lib {
+					// hand the report to the orchestrator exactly like a race in this process
+					fmt.Fprintf(os.Stderr, "RUN %d\n%s\n", r, out)
+					os.Exit(66)
+				}
+			}
+		}
+		if rr.V == nil && !raceEnabled && *freshEvery > 0 && core.Mix(0xf5e5, uint64(r))%uint64(*freshEvery) == 0 {
 			code, out, _ := execTapeProc(os.Args[0], *prop, *tier, tp.Rec, true)
 			res.Counters["probe_whole_run_in_fresh_process"]++
 			switch {
@@ -472,16 +490,37 @@ func runCheck(args []string) int {
 		errb *strings.Builder
 	}
 	var jobs []*job
+	// Run indices are dealt round-robin to `slots`; a plain worker owns plainWeight
+	// consecutive slots, a race-build worker one (it is 5-10x slower), so that all workers
+	// finish at about the same time. The set of runs executed does not depend on W.
+	plainWeight := 1
+	if cfg.raceShare > 0 && *raceBin != "" {
+		plainWeight = 3
+	}
+	isRace := func(w int) bool {
+		return cfg.raceShare > 0 && *raceBin != "" && w%cfg.raceShare == cfg.raceShare-1
+	}
+	slots := 0
+	firstSlot := make([]int, W)
+	kOf := make([]int, W)
+	for w := 0; w < W; w++ {
+		firstSlot[w] = slots
+		kOf[w] = plainWeight
+		if isRace(w) {
+			kOf[w] = 1
+		}
+		slots += kOf[w]
+	}
 	for w := 0; w < W; w++ {
 		bin := os.Args[0]
 		race := false
-		if cfg.raceShare > 0 && *raceBin != "" && w%cfg.raceShare == cfg.raceShare-1 {
+		if isRace(w) {
 			bin = *raceBin
 			race = true
 		}
 		out := filepath.Join(tmp, fmt.Sprintf("w%d.json", w))
-		cmd := exec.Command(bin, "worker", "-prop", *prop, "-seed", strconv.FormatUint(seed, 10), "-w", strconv.Itoa(w), "-W", strconv.Itoa(W), "-n", strconv.Itoa(N), "-tier", *tier, "-out", out, "-budget", budget.String(), "-fresh-every", strconv.Itoa(cfg.freshEvery))
-		cmd.Env = append(os.Environ(), "GORACE=halt_on_error=1 exitcode=66")
+		cmd := exec.Command(bin, "worker", "-prop", *prop, "-seed", strconv.FormatUint(seed, 10), "-w", strconv.Itoa(firstSlot[w]), "-k", strconv.Itoa(kOf[w]), "-W", strconv.Itoa(slots), "-n", strconv.Itoa(N), "-tier", *tier, "-out", out, "-budget", budget.String(), "-fresh-every", strconv.Itoa(cfg.freshEvery))
+		cmd.Env = append(os.Environ(), "GORACE=halt_on_error=1 exitcode=66 atexit_sleep_ms=0")
 		if cfg.singleProc {
 			cmd.Env = append(cmd.Env, "GOMAXPROCS=1")
 		} else {
@@ -600,7 +639,7 @@ func runCheck(args []string) int {
 		seenClass[key] = true
 		doReplay := func() (*exec.Cmd, []byte) {
 			c := exec.Command(os.Args[0], "replay", "-file", v.Replay, "-quiet")
-			c.Env = append(os.Environ(), "GORACE=halt_on_error=1 exitcode=66")
+			c.Env = append(os.Environ(), "GORACE=halt_on_error=1 exitcode=66 atexit_sleep_ms=0")
 			if cfg.singleProc {
 				c.Env = append(c.Env, "GOMAXPROCS=1")
 			}
@@ -610,7 +649,17 @@ func runCheck(args []string) int {
 		c, ob := doReplay()
 		if !strings.HasSuffix(v.Class, "/race") && strings.Contains(string(ob), "REPLAY-CLEAN") {
 			// found in a worker but not reproducible from the tape alone: depends on earlier runs of that worker
-			if historyConfirm(*prop, *tier, seed, &v, W, cfg.singleProc) {
+			owner := -1
+			for w := 0; w < W; w++ {
+				if sl := v.Run % slots; sl >= firstSlot[w] && sl < firstSlot[w]+kOf[w] {
+					owner = w
+				}
+			}
+			owns := func(r int) bool {
+				sl := r % slots
+				return owner >= 0 && sl >= firstSlot[owner] && sl < firstSlot[owner]+kOf[owner]
+			}
+			if historyConfirm(*prop, *tier, seed, &v, owns, cfg.singleProc) {
 				c, ob = doReplay()
 				v.Facts += " history-dependent"
 			}
@@ -829,7 +878,7 @@ func execSeqProc(prop, tier string, seed uint64, hist []int, tape []uint32, sing
 // its tape alone in a fresh process: it depends on runs executed earlier in the worker. The
 // earlier runs of that worker (indices r0, r0+W, ... < r) are minimised with ddmin, one
 // process per candidate, and stored in the replay file.
-func historyConfirm(prop, tier string, seed uint64, v *violationRec, W int, single bool) bool {
+func historyConfirm(prop, tier string, seed uint64, v *violationRec, owns func(r int) bool, single bool) bool {
 	b, err := os.ReadFile(v.Replay)
 	if err != nil {
 		return false
@@ -839,8 +888,10 @@ func historyConfirm(prop, tier string, seed uint64, v *violationRec, W int, sing
 		return false
 	}
 	var hist []int
-	for i := v.Run % W; i < v.Run; i += W {
-		hist = append(hist, i)
+	for i := 0; i < v.Run; i++ {
+		if owns(i) {
+			hist = append(hist, i)
+		}
 	}
 	class := "CLASS " + v.Class
 	test := func(h []int) bool {
@@ -928,7 +979,7 @@ func runExecTape() int {
 	if props.Registry[req.Property] == nil {
 		return 2
 	}
-	env := map[string]string{"tier": req.Tier, "self": os.Args[0], "race": strconv.FormatBool(raceEnabled)}
+	env := map[string]string{"tier": req.Tier, "self": os.Args[0], "race": strconv.FormatBool(raceEnabled), "fresh": "1"}
 	res := execTape(req.Property, req.Tape, false, env)
 	props.Cleanup()
 	if res.Harness != nil {
